@@ -9,6 +9,7 @@
 import AsmjitVerif.Lemmas.C06SysV
 import AsmjitVerif.Lemmas.C06Win64
 import AsmjitVerif.Lemmas.C06A64
+import AsmjitVerif.Spec.Machine
 namespace AsmjitVerif.C06
 open AsmjitVerif.CallConv AsmjitVerif.ABI
 
@@ -165,5 +166,110 @@ example : ∀ t ∈ [tInt8, tUInt64, tFloat32, tFloat64, 79, 89, 99, 45], sysvDo
 example : ∃ cc d, initFuncDetail ⟨.x64, false, false⟩ { ccid := 0, args := List.replicate 10 tFloat64 ++ [79] } = .ok (cc, d) ∧
     d.args.drop 8 = [[.stack tFloat64 0], [.stack tFloat64 8], [.stack 79 16]] ∧ d.argStackSize = 32 :=
   ⟨_, _, rfl, by decide +kernel, by decide +kernel⟩
+
+/-! ## Part 2 – the argument shuffle (`Model/ArgShuffle.lean` on `Spec/Machine.lean`)
+
+  Full-strength statement (NOT proved; false on the current code at the witnesses below, open findings K3, K4, K5):
+
+    theorem shuffle_correct (cfg f argsSa vals) :
+      (emitArgsAssignment cfg f argsSa vals).1 = none →
+      judge cfg.arch f vals (emitArgsAssignment cfg f argsSa vals).2 = some true
+
+  i.e. whatever list is produced with `kOk` puts into every destination the (extended) value of its argument, for every
+  assignment.  What is proved here: (a) the typed move selection – for EVERY pair of integer types and every register pair the
+  instruction `emit_arg_move` selects on x86 turns a source-form token into a destination-form token (sign- or zero-extension exactly
+  as `VarInfo.required` says), for register and memory sources, and the same for AArch64 loads; (b) the negation of the
+  full-strength statement at the K3/K4/K5 witnesses and the refusal of a 3-cycle (#20), on the model that the correspondence ties to
+  the real code.  The schedule-level induction (the invariant "every pending value sits where `cur` says, no instruction writes an
+  assigned register") is not done. -/
+section Shuffle
+open AsmjitVerif.Shuffle AsmjitVerif.Machine
+
+def intTys : List Nat := [34, 35, 36, 37, 38, 39, 40, 41]
+
+/-- token of a variable (dstType, srcType) after the instruction `i` whose source operand carries `srcBytes` bytes -/
+def afterMove (dt st : Nat) (i : Inst) (srcBytes : Nat) : Option Tok :=
+  let vars := [{ srcType := st, dstType := dt : VarInfo }]
+  match i.ops with
+  | .reg ra _ :: _ => (effect i.name ra srcBytes).map fun (k, c, w) => moveTok vars (initTok vars 0) k c w
+  | _ => none
+
+/-- does the instruction x86 `emit_arg_move` selects for (destination type, source type, registers / stack slot) leave the
+    destination register holding the argument in destination form? -/
+def x86MoveOk (drt srt dt st d s : Nat) (mem : Bool) : Bool :=
+  let src := if mem then Opnd.mem 4 8 0 else .reg srt s
+  match x86ArgMove { arch := .x64 } drt d dt src st with
+  | some i =>
+    match i.ops with
+    | [.reg _ d', .reg rb s'] => !mem && d' == d && s' == s && (afterMove dt st i (regBytes rb)).map (·.dv) == some true
+    | [.reg _ d', .mem b o sz] => mem && d' == d && b == 4 && o == 8 && (afterMove dt st i sz).map (·.dv) == some true
+    | _ => false
+  | none => false
+
+/-- **x86 typed move selection**: for every integer destination / source type pair, every GP register pair (any 32/64-bit views)
+    (ids 0..3: the ids are only copied into the operands) and for stack sources, `emit_arg_move` selects an instruction after which the destination holds the argument extended as its
+    type requires (movsx/movsxd exactly when both are signed and the destination is wider, movzx / 32-bit mov otherwise). -/
+theorem x86_int_arg_move_extends : ∀ dt ∈ intTys, ∀ st ∈ intTys, ∀ drt ∈ [5, 6], ∀ srt ∈ [5, 6],
+    ∀ d ∈ List.range 4, ∀ s ∈ List.range 4, x86MoveOk drt srt dt st d s false = true ∧ x86MoveOk drt srt dt st d s true = true := by
+  decide +kernel
+
+def a64LoadOk (dt st d : Nat) : Bool :=
+  match a64ArgMove (if tySize dt ≤ 4 then 5 else 6) d dt (.mem 31 16 0) st with
+  | some i =>
+    match i.ops with
+    | [.reg _ d', .mem 31 16 0] => d' == d && (afterMove dt st i 0).map (·.dv) == some true
+    | _ => false
+  | none => false
+
+/-- **AArch64 loads of stack arguments** (`ldrsb/ldrsh/ldrsw/ldrb/ldrh/ldr`) extend as required, except in exactly two classes
+    (part of open finding K5): a `uint32` widened to 64 bits is loaded with `ldr x` (8 bytes from a slot whose upper half is
+    unspecified), and a signed source widened into an unsigned destination is sign-extended where the rule (and the x86 path)
+    zero-extends. -/
+theorem a64_int_load_extends_partial : ∀ dt ∈ intTys, ∀ st ∈ intTys, ∀ d ∈ List.range 31,
+    (isSigned st && !isSigned dt && decide (tySize dt > tySize st)) = false → (st == 39 && tySize dt == 8) = false →
+    a64LoadOk dt st d = true := by
+  decide +kernel
+
+theorem a64_uint32_load_witness : a64LoadOk 40 39 0 = false := by decide +kernel
+
+/-! ### the full-strength `shuffle_correct` is false on the current code: witnesses (model = real code by the `sh` correspondence) -/
+def frX64 : FrameIn := ⟨false, false, 4, 8, 8, [0, 0, 0, 0], [0xF038, 0, 0, 0]⟩
+def frA64 : FrameIn := ⟨false, false, 31, 0, 0, [0, 0, 0, 0], [0x7FFC0000, 0xFF00, 0, 0]⟩
+
+/-- K3: `f(int64 a @rdi, int32 b @rsi)` with a → rsi and b → rdi as int64: one `xchg`, kOk, b never sign-extended. -/
+theorem shuffle_swap_ext_witness :
+    let vals := [(FuncValue.reg 40 6 7, some (FuncValue.reg 40 6 6)), (FuncValue.reg 38 5 6, some (FuncValue.reg 40 6 7))]
+    let r := emitArgsAssignment { arch := .x64 } frX64 255 vals
+    r.1 = none ∧ judge .x64 frX64 vals r.2 = some false := by decide +kernel
+
+/-- K4: a → rsi, b (in rsi) → xmm7: the id-only swap test fires, kOk, b never reaches xmm7. -/
+theorem shuffle_cross_group_witness :
+    let vals := [(FuncValue.reg 40 6 7, some (FuncValue.reg 40 6 6)), (FuncValue.reg 40 6 6, some (FuncValue.reg 0 11 7))]
+    let r := emitArgsAssignment { arch := .x64 } frX64 255 vals
+    r.1 = none ∧ judge .x64 frX64 vals r.2 = some false := by decide +kernel
+
+/-- K5: AArch64 `int8 @w0 → x0 as int64`: `mov x0, x0`, kOk, not extended. -/
+theorem shuffle_a64_ext_witness :
+    let vals := [(FuncValue.reg 34 5 0, some (FuncValue.reg 40 6 0))]
+    let r := emitArgsAssignment { arch := .a64 } frA64 255 vals
+    r.1 = none ∧ judge .a64 frA64 vals r.2 = some false := by decide +kernel
+
+/-- #20 (completeness, not soundness): the 3-cycle rdi→rsi→rdx→rdi is refused with kInvalidState although `xchg` could solve it. -/
+theorem shuffle_cycle3_refused :
+    (emitArgsAssignment { arch := .x64 } frX64 255
+      [(FuncValue.reg 40 6 7, some (FuncValue.reg 40 6 6)), (FuncValue.reg 40 6 6, some (FuncValue.reg 40 6 2)),
+       (FuncValue.reg 40 6 2, some (FuncValue.reg 40 6 7))]) = (some "InvalidState", []) := by decide +kernel
+
+-- non-vacuity: schedules that are emitted and judged correct (a 2-cycle of same-type registers; a widening self-move; a stack load)
+example :
+    let vals := [(FuncValue.reg 40 6 7, some (FuncValue.reg 40 6 6)), (FuncValue.reg 40 6 6, some (FuncValue.reg 40 6 7))]
+    let r := emitArgsAssignment { arch := .x64 } frX64 255 vals
+    r.1 = none ∧ r.2.length = 1 ∧ judge .x64 frX64 vals r.2 = some true := by decide +kernel
+example :
+    let vals := [(FuncValue.reg 34 5 7, some (FuncValue.reg 40 6 7)), (FuncValue.stack 36 0, some (FuncValue.reg 38 5 3))]
+    let r := emitArgsAssignment { arch := .x64 } frX64 255 vals
+    r.1 = none ∧ r.2.length = 2 ∧ judge .x64 frX64 vals r.2 = some true := by decide +kernel
+
+end Shuffle
 
 end AsmjitVerif.C06
